@@ -458,7 +458,7 @@ func run(c *core.Ctx) {
 	c.SetExhaustive("W1 family: targets x quotes x prefixes x shapes")
 	// W2
 	r := c.Rng("w2")
-	nT := c.N(6000, 150000) / c.NShards
+	nT := c.N(30000, 300000) / c.NShards
 	nA := c.N(6, 14)
 	for i := 0; i < nT; i++ {
 		o := gen.TmplOpts{Lexical: 20, Control: 40, Helpers: 30, Tear: 15, Odd: 10, BadPos: 12, MaxDepth: 3, HelperInAttrOnce: false, URLHeavy: i%2 == 0}
